@@ -1,0 +1,24 @@
+// Copyright 2019 The Scriggo Authors. All rights reserved.
+// Use of this source code is governed by a BSD-style
+// license that can be found in the LICENSE file.
+
+//go:build verif
+
+package compiler
+
+import "unsafe"
+
+// Verification hooks (build tag "verif"). They only report events to a tracer
+// installed through package verifbridge; they never change behaviour.
+const verifOn = true
+
+// VerifLexTracer, if not nil, receives the events of the lexer/parser token
+// protocol: id identifies the lexer, proc is 0 for the lexer goroutine and 1
+// for the parser goroutine; events of one (id, proc) arrive in program order.
+var VerifLexTracer func(id uintptr, proc int, ev string, n int)
+
+func verifLex(l *lexer, proc int, ev string, n int) {
+	if t := VerifLexTracer; t != nil {
+		t(uintptr(unsafe.Pointer(l)), proc, ev, n)
+	}
+}
